@@ -62,6 +62,12 @@ def s_vtypedef(n, t, length, length2=None):
     return d
 def s_vlat(n, tn): return {"k": "vlat", "n": n, "tn": tn}
 def incdec(l, dec=False, post=False): return {"k": "incdec", "l": l, "dec": dec, "post": post}
+def strlit(n, bs): return {"k": "strlit", "n": n, "bytes": list(bs)}
+def s_strobj(n, bs, charsigned):
+    """the hidden array object a string literal denotes (CSem declares it; the C text only has the literal)"""
+    def cv(b): return b - 256 if charsigned and b > 127 else b
+    return {"k": "decl", "n": n, "t": A(T("char"), len(bs) + 1), "hidden": True,
+            "init": {"list": [i_e(cast(T("char"), lit("int", cv(b)))) for b in bs]}}
 def sc_e(op, a, b): return {"k": "sc", "op": op, "a": a, "b": b}
 def scond_e(c, a, b): return {"k": "scond", "c": c, "a": a, "b": b}
 def scomma_e(a, b): return {"k": "scomma", "a": a, "b": b}
@@ -199,6 +205,8 @@ def rexpr(e, structs):
         return "(%s%s)" % (r(e["l"]), op) if e["post"] else "(%s%s)" % (op, r(e["l"]))
     if k == "asg":
         return "(%s %s %s)" % (r(e["l"]), e["op"], r(e["r"]))
+    if k == "strlit":
+        return '"' + "".join(chr(b) if (48 <= b < 58 or 65 <= b < 91 or 97 <= b < 123 or b in b" _+-*/=<>()[]{},.;:!#%&^|~") else "\\%03o" % b for b in e["bytes"]) + '"'
     if k == "sc":
         return "(%s %s %s)" % (r(e["a"]), e["op"], r(e["b"]))
     if k == "scond":
@@ -224,6 +232,8 @@ def rstmt(s, structs, ind=1):
         return t + "%s %s %s;\n" % (r(s["l"]), s["op"], r(s["r"]))
     if k == "obs":
         return t + "obs(%s);\n" % r(s["e"])
+    if k == "decl" and s.get("hidden"):
+        return ""
     if k == "decl":
         d = ("_Alignas(%d) " % s["al"] if s.get("al") else "") + ctype(s["t"], structs, s["n"])
         if "init" in s:
